@@ -90,7 +90,39 @@ impl Binder {
         };
         let having = self.bind_having(select.having)?;
         let orderby = match order_by {
-            Some(order_by) => self.bind_orderby(order_by.exprs)?,
+            Some(order_by) => {
+                // `ORDER BY 2` names the second select item
+                let items = self.egraph[projection].nodes[0].as_list().to_vec();
+                let mut exprs = order_by.exprs;
+                let mut ordinals = vec![];
+                for e in &mut exprs {
+                    if let Expr::Value(Value::Number(n, _)) = &e.expr
+                        && let Ok(n) = n.parse::<usize>()
+                    {
+                        if n == 0 || n > items.len() {
+                            return Err(ErrorKind::InvalidExpression(format!(
+                                "ORDER BY position {n} is not in select list"
+                            ))
+                            .with_spanned(&e.expr));
+                        }
+                        ordinals.push(Some(items[n - 1]));
+                    } else {
+                        ordinals.push(None);
+                    }
+                }
+                let bound = self.bind_orderby(exprs)?;
+                let bound = self.egraph[bound].nodes[0].as_list().to_vec();
+                let mut keys = Vec::with_capacity(bound.len());
+                for (key, item) in bound.into_iter().zip(ordinals) {
+                    let desc = matches!(self.egraph[key].nodes[0], Node::Desc(_));
+                    keys.push(match item {
+                        Some(item) if desc => self.egraph.add(Node::Desc(item)),
+                        Some(item) => item,
+                        None => key,
+                    });
+                }
+                self.egraph.add(Node::List(keys.into()))
+            }
             None => self.egraph.add(Node::List([].into())),
         };
         let distinct = match select.distinct {
